@@ -138,7 +138,7 @@ theorem md_normal (c : Cfg) (tgt : Tgt → Option Nat) (a b retAddr : Nat) (σ :
     ∃ n σ', stepsN c n σ = some σ' ∧
       Rel0 retAddr σ' { s with reg := s.reg.setIfInBounds dst (md_res k w (s.reg.getD dst 0) dv) } ∧
       topBytes σ' { s with reg := s.reg.setIfInBounds dst (md_res k w (s.reg.getD dst 0) dv) } = topBytes σ s ∧
-      σ'.rip = c.codeBase + b := by
+      σ'.log = σ.log ∧ σ'.misaligned = σ.misaligned ∧ σ'.rip = c.codeBase + b := by
   obtain ⟨pre, base, size, hns, hsz, hfin⟩ := md_ns_of_rel0 retAddr σ s hrel
   obtain ⟨hD4, hD10, _, hD1⟩ := regOf_ne_special dst hdst
   obtain ⟨σ', hsteps, hns', hD, hoth⟩ := md_block_steps c (regOf dst) k w X dv hns hsz (regOf_lt dst hdst) hD1 hD4 hX hnz
@@ -148,7 +148,7 @@ theorem md_normal (c : Cfg) (tgt : Tgt → Option Nat) (a b retAddr : Nat) (σ :
   refine ⟨_, _, hrun, ?_⟩
   have := hfin { σ' with rip := c.codeBase + m } { s with reg := s.reg.setIfInBounds dst (md_res k w (s.reg.getD dst 0) dv) }
     (md_ns_congr hns' rfl rfl) rfl hrel.frames ?_ ?_
-  · exact ⟨this.1, this.2, rfl⟩
+  · exact ⟨this.1, this.2, (md_steps_log hsteps).1, (md_steps_log hsteps).2, rfl⟩
   · intro j hj
     show σ'.get (regOf j) = _
     rw [md_vec_getD_set]
@@ -204,13 +204,13 @@ theorem md_prefix2 (c : Cfg) (tgt : Tgt → Option Nat) (a b : Nat) (σ : St) (p
     (hrip : σ.rip = c.codeBase + a) :
     ∃ m v σ2, checkSeq c.code tgt m rest = some b ∧ stepsN c 2 σ = some σ2 ∧ σ2.rip = c.codeBase + m ∧
       σ2.flags = some (X86.flagsLogic (if w then 64 else 32) (X86.trunc (if w then 64 else 32) (σ.get S))) ∧
-      σ2.mem = σ.mem ∧ σ2.reg = (σ.set 1 v).reg := by
+      σ2.mem = σ.mem ∧ σ2.reg = (σ.set 1 v).reg ∧ σ2.log = σ.log ∧ σ2.misaligned = σ.misaligned := by
   obtain ⟨v, h1⟩ := md_step_loadImm_any c σ 1 pc
   have h2 := md_step_test c (σ.set 1 v) w S
   rw [get_set_ne _ _ _ _ (Ne.symm hS)] at h2
   obtain ⟨m, hm, hrun⟩ := md_run c tgt [JitAst.loadImm 1 pc, .aluRR w .test S S] rest a b σ _ hc hrip
     (md_Steps.cons h1 (md_steps_one h2))
-  exact ⟨m, v, _, hm, hrun, rfl, rfl, rfl, rfl⟩
+  exact ⟨m, v, _, hm, hrun, rfl, rfl, rfl, rfl, rfl, rfl⟩
 
 /-- register remainder: `mov rcx, pc ; test src, src ; je next` -/
 theorem md_prefix_mod (c : Cfg) (tgt : Tgt → Option Nat) (a b : Nat) (σ : St) (pc : Int) (t : Tgt) (w : Bool) (S : Nat)
@@ -218,9 +218,10 @@ theorem md_prefix_mod (c : Cfg) (tgt : Tgt → Option Nat) (a b : Nat) (σ : St)
     (hc : checkSeq c.code tgt a (AI.i (JitAst.loadImm 1 pc) :: .i (.aluRR w .test S S) :: .jcc .e t :: rest) = some b)
     (hrip : σ.rip = c.codeBase + a) (hb : c.codeBase + b < 2 ^ 63) :
     ∃ σ' v, stepsN c 3 σ = some σ' ∧ σ'.mem = σ.mem ∧ σ'.reg = (σ.set 1 v).reg ∧
+      σ'.log = σ.log ∧ σ'.misaligned = σ.misaligned ∧
       ((¬ md_nz w (σ.get S) ∧ ∃ l, tgt t = some l ∧ σ'.rip = c.codeBase + l) ∨
        (md_nz w (σ.get S) ∧ ∃ m, checkSeq c.code tgt m rest = some b ∧ σ'.rip = c.codeBase + m)) := by
-  obtain ⟨m2, v, σ2, hc2, hrun2, hrip2, hfl2, hmem2, hreg2⟩ := md_prefix2 c tgt a b σ pc w S _ hS hc hrip
+  obtain ⟨m2, v, σ2, hc2, hrun2, hrip2, hfl2, hmem2, hreg2, hlog2, hmis2⟩ := md_prefix2 c tgt a b σ pc w S _ hS hc hrip
   obtain ⟨n, rel, l, hd, ht, hland, hc3⟩ := checkSeq_jcc _ _ _ _ _ _ _ hc2
   have hle := checkSeq_le _ _ _ _ _ hc3
   have hstep : step c σ2 = _ := (step_at c σ2 m2 n _ hrip2 hd).trans (md_exec_jcc c σ2 .e rel (c.codeBase + m2 + n) _ hfl2)
@@ -229,11 +230,11 @@ theorem md_prefix_mod (c : Cfg) (tgt : Tgt → Option Nat) (a b : Nat) (σ : St)
   · have : ¬ (X86.Cc.e.holds (X86.flagsLogic (if w then 64 else 32) (X86.trunc (if w then 64 else 32) (σ.get S)))) = true := by
       rw [X86.Cc.holds, md_zf_iff]; exact fun h => h hz
     rw [if_neg this]
-    exact ⟨hmem2, hreg2, Or.inr ⟨hz, m2 + n, hc3, by simp [Nat.add_assoc]⟩⟩
+    exact ⟨hmem2, hreg2, hlog2, hmis2, Or.inr ⟨hz, m2 + n, hc3, by simp [Nat.add_assoc]⟩⟩
   · have : (X86.Cc.e.holds (X86.flagsLogic (if w then 64 else 32) (X86.trunc (if w then 64 else 32) (σ.get S)))) = true := by
       rw [X86.Cc.holds, md_zf_iff]; exact hz
     rw [if_pos this]
-    refine ⟨hmem2, hreg2, Or.inl ⟨hz, l, ht, ?_⟩⟩
+    refine ⟨hmem2, hreg2, hlog2, hmis2, Or.inl ⟨hz, l, ht, ?_⟩⟩
     show X86.relTarget (c.codeBase + m2 + n) rel = _
     rw [Nat.add_assoc]
     exact relTarget_lands _ _ _ _ hland (by omega)
@@ -246,10 +247,10 @@ theorem md_prefix_div (c : Cfg) (tgt : Tgt → Option Nat) (a b : Nat) (σ : St)
       .i (.jcc .ne (BitVec.ofNat 32 (if JitEmit.rexWouldSetBits 0 D D then 8 else 7))) :: .i (.aluRR false .xor D D) ::
       .jmp t :: rest) = some b)
     (hrip : σ.rip = c.codeBase + a) (hb : c.codeBase + b < 2 ^ 63) :
-    ∃ σ' v n, stepsN c n σ = some σ' ∧ σ'.mem = σ.mem ∧
+    ∃ σ' v n, stepsN c n σ = some σ' ∧ σ'.mem = σ.mem ∧ σ'.log = σ.log ∧ σ'.misaligned = σ.misaligned ∧
       ((¬ md_nz w (σ.get S) ∧ σ'.reg = ((σ.set 1 v).set D 0).reg ∧ ∃ l, tgt t = some l ∧ σ'.rip = c.codeBase + l) ∨
        (md_nz w (σ.get S) ∧ σ'.reg = (σ.set 1 v).reg ∧ ∃ m, checkSeq c.code tgt m rest = some b ∧ σ'.rip = c.codeBase + m)) := by
-  obtain ⟨m2, v, σ2, hc2, hrun2, hrip2, hfl2, hmem2, hreg2⟩ := md_prefix2 c tgt a b σ pc w S _ hS hc hrip
+  obtain ⟨m2, v, σ2, hc2, hrun2, hrip2, hfl2, hmem2, hreg2, hlog2, hmis2⟩ := md_prefix2 c tgt a b σ pc w S _ hS hc hrip
   obtain ⟨n3, hd3, hc3⟩ := checkSeq_i _ _ _ _ _ _ hc2
   obtain ⟨nx, hdx, hc4⟩ := checkSeq_i _ _ _ _ _ _ hc3
   obtain ⟨nj, relj, l, hdj, ht, hlandj, hc5⟩ := checkSeq_jmp _ _ _ _ _ _ hc4
@@ -261,7 +262,7 @@ theorem md_prefix_div (c : Cfg) (tgt : Tgt → Option Nat) (a b : Nat) (σ : St)
   · have : (X86.Cc.ne.holds (X86.flagsLogic (if w then 64 else 32) (X86.trunc (if w then 64 else 32) (σ.get S)))) = true := by
       rw [X86.Cc.holds, Bool.not_eq_true', ← Bool.not_eq_true, md_zf_iff]; exact fun h => h hz
     rw [if_pos this] at hstep3
-    refine ⟨_, v, 3, stepsN_add c 2 1 _ _ _ hrun2 (stepsN_one c _ _ hstep3), hmem2, Or.inr ⟨hz, hreg2, m2 + n3 + nx + nj, hc5, ?_⟩⟩
+    refine ⟨_, v, 3, stepsN_add c 2 1 _ _ _ hrun2 (stepsN_one c _ _ hstep3), hmem2, hlog2, hmis2, Or.inr ⟨hz, hreg2, m2 + n3 + nx + nj, hc5, ?_⟩⟩
     show X86.relTarget (c.codeBase + m2 + n3) _ = _
     rw [Nat.add_assoc]
     apply relTarget_lands _ _ _ _ _ (by omega)
@@ -273,11 +274,11 @@ theorem md_prefix_div (c : Cfg) (tgt : Tgt → Option Nat) (a b : Nat) (σ : St)
     rw [if_neg this] at hstep3
     obtain ⟨fl, hx⟩ := md_step_xor32 c { σ2 with rip := c.codeBase + m2 + n3 } D
     have hstep4 : step c { σ2 with rip := c.codeBase + m2 + n3 } = _ :=
-      (step_at c _ (m2 + n3) nx _ (by simp [Nat.add_assoc]) hdx).trans (hx _)
+      (step_at c _ (m2 + n3) nx _ (by simp [Nat.add_assoc]) hdx).trans (hx.1 _)
     have hstep5 : step c { ({ ({ σ2 with rip := c.codeBase + m2 + n3 } : St) with flags := fl }.set D 0) with
         rip := c.codeBase + (m2 + n3) + nx } = _ :=
       (step_at c _ (m2 + n3 + nx) nj _ (by simp [Nat.add_assoc]) hdj).trans (md_exec_jmp c _ relj _)
-    refine ⟨_, v, 5, stepsN_add c 2 3 _ _ _ hrun2 (stepsN_three c _ _ _ _ hstep3 hstep4 hstep5), hmem2,
+    refine ⟨_, v, 5, stepsN_add c 2 3 _ _ _ hrun2 (stepsN_three c _ _ _ _ hstep3 hstep4 hstep5), hmem2, hlog2, hmis2,
       Or.inl ⟨hz, ?_, l, ht, ?_⟩⟩
     · show (St.set _ D 0).reg = _
       simp only [St.set, hreg2]
